@@ -66,6 +66,26 @@ def gen_cases(rep):
             if fmt == "iso9660" and not opts:
                 opts = b"iso9660:rockridge=strict"
             out.append((fmt, opts, b"", 0, -1, [list(e) for e in directed], False))
+        # several long names in ONE directory, odd and even lengths in every order: records that overflow into shared
+        # continuation areas / blocks, whose padding depends on the parities of the lengths
+        for n1, n2, n3 in ((151, 174, 0), (151, 175, 0), (151, 176, 0), (150, 177, 0), (179, 174, 0), (160, 161, 162), (174, 151, 176), (120, 121, 122)):
+            many = [C10.ent(path=b"dd", mode=C10.DIR | 0o755, mtime=(5000, 0))]
+            for k, n in enumerate((n1, n2, n3)):
+                if n:
+                    many.append(C10.ent(path=b"dd/" + bytes([65 + k]) * n, size=2, body=b"ab", mtime=(1000 + k, 0), uid=k, gid=k))
+            o2 = b"iso9660:rockridge=strict" if fmt == "iso9660" else b""
+            out.append((fmt, o2, b"", 0, -1, many, False))
+            if fmt == "iso9660":
+                out.append((fmt, b"iso9660:!joliet,iso9660:!pad", b"", 0, -1, [list(e) for e in many], False))
+        if fmt == "iso9660":
+            # all parities of two and three records sharing a continuation block
+            for n1 in range(150, 154):
+                for n2 in range(172, 178):
+                    many = [C10.ent(path=b"A" * n1, size=2, body=b"ab", mtime=(1000, 0)),
+                            C10.ent(path=b"B" * n2, size=2, body=b"ab", mtime=(1001, 0))]
+                    if (n1 + n2) % 3 == 0:
+                        many.append(C10.ent(path=b"C" * (n1 + 7), size=1, body=b"c", mtime=(1002, 0), atime=(5, 0), ctime=(6, 0)))
+                    out.append((fmt, b"iso9660:!joliet,iso9660:!pad", b"", 0, -1, many, False))
     return out
 
 def line_for(c, poison, op=2):
